@@ -47,7 +47,7 @@ def main():
         await host.drop()
         await asyncio.sleep(2)
     try:
-        with world.Watchdog(120):
+        with world.Watchdog(900):
             try:
                 run.sim.run(drive())
             except (core.SimLimit, core.SimDeadlock) as e:
